@@ -25,6 +25,18 @@ CLAIMS = {
         note="Trusted: Lean kernel/Mathlib/standard axioms; translator (Python int subset → Int.fdiv/fmod normal form); harness; numpy's exact ±1 products. "
              "'flipping one bond flips exactly the adjacent plaquettes' uses C02's adjacency table on the implementation side.",
         ref="§7 C05"),
+    "C02": dict(
+        technique="Lean 4 proof (table fill loops = unique traversing plaquette; cache state-machine invariant by induction) + exact correspondence",
+        text="Kernel-checked theorems about the executable table model: the edge→plaquette cell of dart d holds the unique plaquette traversing d "
+             "(uses C01's disjointness), INVALID iff none; vertex rows list exactly the containing plaquettes once, in order; plaquette neighbours "
+             "are the plaquettes across its edges in edge order; one coordination number per vertex = row length; edge neighbours; adjacency "
+             "symmetric/true at joined pairs; helper edge sets = table rows; and history independence of the lazily computed attributes for every "
+             "sequence of accesses and pickle round trips. Every table and helper of koala is compared exactly with the model on the zoo; all 24 "
+             "first-access orders × {fresh, unpickled, pickled midway} are executed on the implementation.",
+        note="Trusted: Lean kernel/Mathlib/standard axioms; harness; CPython pickle and cached_property semantics (modelled by the Cache state machine); "
+             "the mirror-order relation between clockwise_about and the table is decided by correspondence, not proved; the 'row never overflows' bound "
+             "is exercised by correspondence (degree 0..12), not yet proved.",
+        ref="§7 C02"),
 }
 
 PENDING_REASON = "check not built yet in this revision (work in progress; see DESIGN.md §7 for the planned Lean model and tie)"
